@@ -151,7 +151,7 @@ func placePrev(r *rand.Rand, sp *oracle.Spec) (int64, string) {
 	hi := unixOf(2262, 4, 11, 0, 0, 0)
 	uniform := func() int64 { return lo + r.Int63n(hi-lo) }
 	recent := func() int64 { return unixOf(1990, 1, 1, 0, 0, 0) + r.Int63n(unixOf(2080, 1, 1, 0, 0, 0)-unixOf(1990, 1, 1, 0, 0, 0)) }
-	switch r.Intn(12) {
+	switch r.Intn(14) {
 	case 0:
 		return uniform(), "uniform"
 	case 1:
@@ -189,6 +189,33 @@ func placePrev(r *rand.Rand, sp *oracle.Spec) (int64, string) {
 		return unixOf(2261, 1, 1, 0, 0, 0) + r.Int63n(hi-unixOf(2261, 1, 1, 0, 0, 0)), "range-end"
 	case 9: // the very beginning
 		return lo + r.Int63n(3*86400), "epoch"
+	case 12, 13: // a matching instant with ONE field moved off its value (more significant fields still match, less significant ones
+		// arbitrary): the state in which a wrong validity test of that field is not masked by a carry from above
+		if sp != nil {
+			if w, ok := sp.Next(recent()); ok {
+				days := int(floorDiv64(w, 86400))
+				sod := int(w - int64(days)*86400)
+				y, m, d := oracle.CivilFromDays(days)
+				h, mi, sc := sod/3600, sod/60%60, sod%60
+				delta := []int{-2, -1, 1, 2}[r.Intn(4)]
+				switch r.Intn(5) {
+				case 0:
+					mi, sc = mi+delta, r.Intn(60)
+				case 1:
+					h, mi, sc = h+delta, r.Intn(60), r.Intn(60)
+				case 2:
+					d, h, mi, sc = d+delta, r.Intn(24), r.Intn(60), r.Intn(60)
+				case 3:
+					m, d, h, mi, sc = m+delta, 1+r.Intn(28), r.Intn(24), r.Intn(60), r.Intn(60)
+				default:
+					y, m, d, h, mi, sc = y+delta, 1+r.Intn(12), 1+r.Intn(28), r.Intn(24), r.Intn(60), r.Intn(60)
+				}
+				if mi >= 0 && mi < 60 && h >= 0 && h < 24 && m >= 1 && m <= 12 && y >= 1970 && y <= 2261 && d >= 1 && d <= oracle.Dim(y, m) {
+					return unixOf(y, m, d, h, mi, sc), "one-field-off-a-match"
+				}
+			}
+		}
+		return recent(), "recent"
 	case 10: // day 28..31 of a month, any time
 		y, m := 1990+r.Intn(90), 1+r.Intn(12)
 		d := 28 + r.Intn(oracle.Dim(y, m)-27)
@@ -417,4 +444,12 @@ func judge(c *cronCase, _ map[string]bool) string {
 func parsesOK(expr string) (ok bool) {
 	defer func() { recover() }()
 	return quartz.ValidateCronExpression(expr) == nil
+}
+
+func floorDiv64(a, b int64) int64 {
+	q := a / b
+	if a%b != 0 && (a < 0) != (b < 0) {
+		q--
+	}
+	return q
 }
